@@ -21,7 +21,9 @@ class C15(core.Check):
                   "sse_in_response_fragmentation_independent (close-delimited and chunked, via the response reader), sse_refines_spec (the incremental reader equals the "
                   "whole-stream specification splitLines + fold), terminator_invariant (for lines without CR/LF any per-line choice among CRLF/LF/CR that is followed by more "
                   "input gives the same events; the inherent CR-then-LF ambiguity is excluded by the hypothesis), lone_cr_waits / cr_then_lf_is_one_terminator (a CR that ends the buffer is not yet a terminator; with the LF it is one CRLF). "
-                  "Tied to the code by the correspondence run and the regenerated eols table; the WHATWG reading itself is checked by the implementation-side oracle.")
+                  "Reconnect boundary (a sequence of streams through one Respondent): reconnect_keeps_only_id_and_retry, evented_head_starts_fresh (the next evented head builds a new "
+                  "event source over an empty line buffer whatever the dropped stream left), absorb_pieces, stream_events_depend_only_on_own_bytes (events of stream n+1 = the reader run on its own "
+                  "body bytes from the empty state; last event id / retry its own when set, else carried). Tied to the code by the correspondence run and the regenerated eols table; the WHATWG reading itself is checked by the implementation-side oracle.")
     level_note = ("Trusted: Lean kernel; translator; sampled correspondence; UTF-8 replacement decoding is modelled (utf8Replace) and exercised by the correspondence on "
                   "malformed sequences.  Out of scope (stated in notes): BOM, NUL in id, WHATWG's end-of-stream treatment of a final lone CR (it stays pending).")
     quick_n = 900
